@@ -37,6 +37,9 @@ func genPlan(rng *rand.Rand, sc *Scenario, transport string) []Step {
 	if rng.IntN(3) == 0 {
 		plan = append(plan, Step{At: at + rng.IntN(n/10+1), Op: "replay"})
 	}
+	if rng.IntN(4) == 0 {
+		plan = append(plan, Step{At: at + rng.IntN(n/10+1), Op: "pause-refused"})
+	}
 	gateable := transport == "tcp" || transport == "udp"
 	cycles := rng.IntN(3)
 	if sc.Mode == "racy" {
@@ -188,6 +191,10 @@ func genScenario(rng *rand.Rand, n int, allTransports bool) *Scenario {
 		// second direction: a recording client publishes, the server session re-writes to the stream
 		sc.Relay = []string{"tcp", "tcp", "udp"}[rng.IntN(3)]
 		sc.PubCap = []int{8, 16, 64, 256}[rng.IntN(4)]
+		if rng.IntN(3) == 0 {
+			sc.PubSteps = []Step{{At: rng.IntN(n/2 + 1), Op: "pause-refused"}, {At: n/2 + rng.IntN(n/2), Op: "pause-refused"}}
+			sc.PubRecordRefused = rng.IntN(2)
+		}
 		if sc.Relay == "udp" {
 			anyUDP = true
 			if rng.IntN(3) != 0 {
@@ -297,6 +304,7 @@ func runScenario(c *corr.Ctx, sc *Scenario, name string, st *runStats) {
 		}
 		h.reindex()
 		c.Dist("relay:" + sc.Relay)
+		c.DistN("publisher-pause-refused", h.nPubRefused)
 		if h.rawPub != nil {
 			c.Dist("relay:raw-publisher")
 		}
@@ -310,6 +318,12 @@ func runScenario(c *corr.Ctx, sc *Scenario, name string, st *runStats) {
 			if o == 'f' {
 				c.Dist("publisher-queue-full")
 			}
+		}
+	}
+	for _, rd := range h.readers {
+		if rd.spec.Back {
+			c.DistN("back-channel-written", len(rd.backOut))
+			c.DistN("back-channel-received", len(rd.backRecs))
 		}
 	}
 	h.checkProperty(c)
@@ -546,6 +560,54 @@ func keepaliveStorm(seed uint64, n int) *Scenario {
 		}}
 }
 
+// refusedScenarios: a PLAY / PAUSE / RECORD the server refuses (4xx / 5xx from the handler, or 501 from a
+// server whose handler has no OnPause / OnPlay) must leave the flow working: what is written AFTER the
+// refused request is delivered too (exactly once, in order), in both directions.
+func refusedScenarios(seed uint64) []*Scenario {
+	readers := func() []ReaderSpec {
+		return []ReaderSpec{
+			{Transport: "tcp", Medias: []int{0, 1}, Plan: []Step{{At: 0, Op: "play"}, {At: 100, Op: "pause-refused"}, {At: 220, Op: "pause-refused"},
+				{At: 300, Op: "pause"}, {At: 340, Op: "play-refused"}, {At: 341, Op: "play"}}},
+			{Transport: "udp", Medias: []int{1, 0}, Plan: []Step{{At: 0, Op: "play-refused"}, {At: 1, Op: "play"}, {At: 150, Op: "pause-refused"}}},
+		}
+	}
+	pub := []Step{{At: 60, Op: "pause-refused"}, {At: 200, Op: "pause-refused"}, {At: 201, Op: "pause-refused"}}
+	mk := func(relay string, noPause, noPlay bool, rs []ReaderSpec) *Scenario {
+		sc := &Scenario{Seed: seed, Mode: "exact", Cap: 64, Medias: [][]int{{96}, {97, 98}}, N: 500, Pace: 2,
+			Relay: relay, PubCap: 32, NoPauseHandler: noPause, NoPlayHandler: noPlay, Readers: rs}
+		if relay != "" {
+			sc.PubSteps = pub
+			sc.PubRecordRefused = 1
+		}
+		return sc
+	}
+	noPauseReaders := []ReaderSpec{
+		{Transport: "tcp", Medias: []int{0, 1}, Plan: []Step{{At: 0, Op: "play"}, {At: 100, Op: "pause-refused"}, {At: 300, Op: "pause-refused"}}},
+		{Transport: "udp", Medias: []int{0, 1}, Plan: []Step{{At: 20, Op: "play"}, {At: 200, Op: "pause-refused"}}},
+	}
+	// play session with a back channel: the client's write queue carries media; a refused PAUSE destroys
+	// and rebuilds it, the next burst must arrive
+	back := func(tr string) ReaderSpec {
+		return ReaderSpec{Transport: tr, Medias: []int{0, 1}, Back: true, Plan: []Step{{At: 0, Op: "play"}, {At: 50, Op: "back"},
+			{At: 120, Op: "pause-refused"}, {At: 130, Op: "back"}, {At: 250, Op: "pause-refused"}, {At: 251, Op: "pause-refused"}, {At: 260, Op: "back"},
+			{At: 330, Op: "pause"}, {At: 360, Op: "play-refused"}, {At: 361, Op: "play"}, {At: 400, Op: "back"}}}
+	}
+	bc := mk("", false, false, []ReaderSpec{back("tcp"), back("udp"), readers()[0]})
+	bc.BackChannel = true
+	bcNoPause := mk("", true, false, []ReaderSpec{
+		{Transport: "tcp", Medias: []int{1}, Back: true, Plan: []Step{{At: 0, Op: "play"}, {At: 50, Op: "back"}, {At: 120, Op: "pause-refused"}, {At: 130, Op: "back"}}},
+		{Transport: "udp", Medias: []int{0}, Back: true, Plan: []Step{{At: 0, Op: "play"}, {At: 60, Op: "back"}, {At: 140, Op: "pause-refused"}, {At: 150, Op: "back"}}}})
+	bcNoPause.BackChannel = true
+	return []*Scenario{
+		bc, bcNoPause,
+		mk("", false, false, readers()),
+		mk("tcp", false, false, readers()[:1]),
+		mk("udp", false, false, readers()[1:]),
+		mk("tcp", true, false, noPauseReaders),
+		mk("udp", true, true, []ReaderSpec{{Transport: "tcp", Medias: []int{0}}}), // (nobody can PLAY: the reader never connects)
+	}
+}
+
 // replayScenario: PLAY again while playing, PAUSE → PLAY → PLAY, PLAY with Range - delivery goes on.
 func replayScenario(seed uint64, tls bool) *Scenario {
 	sc := &Scenario{Seed: seed, Mode: "exact", TLS: tls, Cap: 64, Medias: [][]int{{96}, {97, 98}}, N: 600, Pace: 2,
@@ -637,6 +699,9 @@ func Run(c *corr.Ctx) {
 		runScenario(c, topSizes(c.Rng.Uint64(), true, 0, "udp", "tcp", "udp"), "top-sizes/tls-relay-udp", st)
 		runScenario(c, topSizes(c.Rng.Uint64(), true, 600, "", "http", "ws"), "top-sizes/tls-tunnels", st)
 		runScenario(c, topSizes(c.Rng.Uint64(), false, 0, "tcp", "http", "tcp"), "top-sizes/plain-relay", st)
+	}
+	for i, sc := range refusedScenarios(c.Rng.Uint64()) {
+		runScenario(c, sc, fmt.Sprintf("refused/%d", i), st)
 	}
 	runScenario(c, keepaliveStorm(c.Rng.Uint64(), c.N(4000, 10000)), "keepalive-storm", st)
 	if !c.Quick() {
